@@ -46,8 +46,12 @@ def _setup_imports():
 def load_contracts(prop):
     from .contract import REGISTRY
 
-    modname = f"contracts.{prop.lower()}"
-    importlib.import_module(modname)
+    import glob
+
+    importlib.import_module(f"contracts.{prop.lower()}")  # must exist
+    # contracts serving several properties live in one module and register for all of them
+    for path in sorted(glob.glob(os.path.join(VERIF, "contracts", "c[0-9][0-9].py"))):
+        importlib.import_module("contracts." + os.path.basename(path)[:-3])
     return REGISTRY.get(prop, [])
 
 
@@ -131,7 +135,10 @@ def _run_deductive(c, case_id, case, cfg, out):
     from .interp import SOURCES_SEEN
 
     timeout_ms = c.timeout_ms or cfg["timeout_ms"]
-    deadline = time.time() + cfg["case_deadline_s"]
+    deadline = min(time.time() + cfg["case_deadline_s"], cfg["run_deadline"])
+    if time.time() > cfg["run_deadline"]:
+        out["unsupported"].append("run deadline reached before this case started")
+        return
     records, stats, interp = explore(c.body, case, timeout_ms=timeout_ms,
                                      max_paths=c.max_paths or cfg["max_paths"], deadline=deadline, tier=_W["tier"])
     out["paths"] = len(records)
@@ -287,7 +294,8 @@ def main(argv=None):
     t_start = time.time()
     cfg = {
         "timeout_ms": 10000 if tier == "quick" else 120000,
-        "case_deadline_s": 240 if tier == "quick" else 3000,
+        "case_deadline_s": 90 if tier == "quick" else 3000,
+        "run_deadline": time.time() + (900 if tier == "quick" else 6 * 3600),
         "max_paths": 4000 if tier == "quick" else 50000,
         "selfcheck_samples": 2 if tier == "quick" else 5,
     }
